@@ -6,6 +6,7 @@ import (
 	"encoding/json"
 	"fmt"
 	"os"
+	"runtime"
 	"sort"
 	"strconv"
 	"testing"
@@ -25,12 +26,26 @@ func TestDebug(t *testing.T) {
 		n = 3
 	}
 	base, _ := strconv.Atoi(os.Getenv("WD_SEED"))
+	go func() { // memory watchdog: dump stacks when the heap explodes
+		var ms runtime.MemStats
+		for {
+			time.Sleep(500 * time.Millisecond)
+			runtime.ReadMemStats(&ms)
+			if ms.HeapAlloc > 3<<30 {
+				buf := make([]byte, 1<<20)
+				n := runtime.Stack(buf, true)
+				os.Stderr.Write(buf[:n])
+				os.Exit(3)
+			}
+		}
+	}()
 	sigs := map[string]string{}
 	count := map[string]int{}
 	probes := map[string]int{}
 	faults := map[string]int{}
 	var total time.Duration
-	for i := 0; i < n; i++ {
+	from, _ := strconv.Atoi(os.Getenv("WD_FROM"))
+	for i := from; i < from+n; i++ {
 		seed := core.Mix(uint64(base+1), uint64(i))
 		e := Engine{}
 		plan := e.Generate(core.NewRng(seed), prop, "quick")
